@@ -68,7 +68,7 @@ def make_scenarios(ctx, count):
         for j, fr in enumerate(h):
             if switch_at == j:
                 g2 = G.rand_global(rng, icon_size=rng.choice([0, 5, 700, 3000]))
-                glob = dict(glob, icon_seed=g2["icon_seed"], icon_size=g2["icon_size"], fname=g2["fname"], _icon_cache=None)
+                glob = dict(glob, icon_seed=g2["icon_seed"], icon_size=g2["icon_size"], fname=g2["fname"], _icon_cache=None, icon=g2.get("icon"))
                 s.add("GSET icon=%s fname=%s" % (G.global_kw(glob)["icon"], glob["fname"].hex() or "-"))
             s.frame(0, fr)
         rs = rng.choice([0, 0, 1, 0x4242, 0xFFFF, rng.getrandbits(16)])
